@@ -264,7 +264,11 @@ def compare_case(impl_lines, model_lines):
             spec = b["V"][i]
             got = a["R"].get(i)
             want = "panic 2" if spec == "cycle" else spec
-            if got != want:
+            # a request whose from-scratch evaluation re-enters a node must PANIC: with the cycle
+            # error, or -- when a recovering fixpoint head was poisoned by the cycle panic of an
+            # earlier request in the same revision -- with the propagated panic (class 7); both are
+            # "panic instead of hanging or returning a value" (C14)
+            if got != want and not (spec == "cycle" and got == "panic 7"):
                 return dict(level="spec", step=i, impl=got, model=want)
         for kind, level in (("R", "values"), ("E", "events"), ("S", "state")):
             if a[kind].get(i) != b[kind].get(i):
